@@ -37,7 +37,7 @@ impl SubCheck for Transitions {
         "transition_relation"
     }
     fn cases(&self, tier: Tier) -> u32 {
-        tier.pick(400, 8000)
+        tier.pick(3000, 40000)
     }
     fn strategy(&self, _tier: Tier) -> BoxedStrategy<SysDesc> {
         sys_strategy(SysParams::general())
